@@ -1,0 +1,12 @@
+//go:build verif
+
+package common
+
+// Contracts for /verif (contract-based deductive verification). Comment-only.
+
+//@ func CalculateMinFee(bodySize, minFeeA, minFeeB) (fee, err)
+//@   props C30
+//@   let exact = u192(minFeeA)*u192(uint64(bodySize)) + u192(minFeeB)
+//@   ensures neg:      bodySize < 0 ==> err != nil
+//@   ensures exact:    bodySize >= 0 && exact <  1<<64 ==> err == nil && u192(fee) == exact
+//@   ensures overflow: bodySize >= 0 && exact >= 1<<64 ==> err != nil
